@@ -1,7 +1,6 @@
 //! tfharness — shared library: line protocol, RNG, value generators, run loop.
 //! One binary per property group lives in `src/bin/`; a group that does not compile cannot break
 //! the others.
-pub mod engine;
 pub mod framework;
 pub mod rng;
 pub mod sexp;
